@@ -34,6 +34,18 @@ def diameter_deg(vs):
     return math.degrees(d)
 
 
+def min_turn_deg(vs):
+    """Smallest turning angle (degrees) at a corner: 0 means three consecutive corners on one
+    great circle.  Slivers below the library's own tolerances are not faces."""
+    n = len(vs)
+    t = math.inf
+    for i in range(n):
+        a, b, c = vs[i - 1], vs[i], vs[(i + 1) % n]
+        n1, n2 = S.normalize(S.cross(a, b)), S.normalize(S.cross(b, c))
+        t = min(t, S.angle(n1, n2))
+    return math.degrees(t)
+
+
 def size_class(vs):
     d = diameter_deg(vs)
     for lim, name in SIZE_CLASSES:
@@ -86,7 +98,7 @@ def convex_face(draw, max_class=3, min_corners=3, max_corners=8):
                 h = ConvexHull(np.array(pts))
                 hv = [pts[i] for i in h.vertices][:max_corners]  # ccw in the plane
                 cand = from_gnomonic(c, e1, e2, hv)
-                if len(cand) >= 3 and S.is_strictly_convex(cand, 1e-7 * (R ** 3)) and min(
+                if len(cand) >= 3 and S.is_strictly_convex(cand, 1e-7 * (R ** 3)) and min_turn_deg(cand) >= 0.5 and min(
                     S.angle(cand[i], cand[(i + 1) % len(cand)]) for i in range(len(cand))
                 ) > math.radians(0.2):
                     vs = cand
